@@ -710,6 +710,13 @@ func (v *verifier) checkData(res *imgResult, n *node.Node, k int, obs map[partKe
 				return "C07/logged-entry-lost/replayed-but-not-returned-by-query"
 			}
 		}
+		for _, f := range v.L.Flushes {
+			if f.Kind == "data" && f.Fault && f.Shard == e.Part.Shard && f.Family == e.Part.Family && e.AppliedTick > f.BeginTick {
+				// the entry went into the second memory database of a family whose frozen one could not be flushed; the
+				// stored sequence covers it although only the frozen database's table can have been committed
+				return "C07/entry-at-or-below-stored-sequence-not-in-flushed-data/family-held-two-memory-databases"
+			}
+		}
 		meta, index := v.covered(ref.row, k)
 		switch {
 		case meta && index:
